@@ -2,6 +2,10 @@ G = "modeling/goofit.py"
 C = "modeling/ampgen2goofit.py"
 MN = "__main__.py"
 MUTANTS = [
+    ("cpp-only-radius", G, "        L = self.L\n        radius = 5.0 if \"c\" in self.particle.quarks.lower() else 1.5\n", "        L = self.L\n        radius = 5.0 if \"b\" in self.particle.quarks.lower() else 1.5\n", "C19.5"),
+    ("cpp-only-pole-flag", G, "            is_pole = \"true\" if poleprod == \"pole\" else \"false\"", "            is_pole = \"false\" if poleprod == \"pole\" else \"true\"", "C19.5"),
+    ("returns-by-default-cpp", C, "def ampgen2goofit(filename, ret_output=False):", "def ampgen2goofit(filename, ret_output=True):", "C19"),
+    ("registry-reset-on-base", "modeling/amplitudechain.py", "        cls.all_particles = set()\n", "        AmplitudeChain.all_particles = set()\n", "C19.8"),
     ("f6-regression", C, '    printer("DK3P_DI.amplitudes = amplitudes_list")', '    print("DK3P_DI.amplitudes = amplitudes_list")', "C19.1"),
     ("f5-regression", G, "            else f'Variable(\"{self!s}_i\", {self.amp.imag:.6},{self.err.imag:.6}, 0., 1000.)'", "            else f'Variable(\"{self!s}_r\", {self.amp.imag:.6},{self.err.imag:.6}, 0., 1000.)'", "C19.2"),
     ("cpp-imag-named-r", G, "            f'        mkvar(\"{self!s}_i\", {fix}, {self.amp.imag:.6}, {self.err.imag:.6}),\\n'", "            f'        mkvar(\"{self!s}_r\", {fix}, {self.amp.imag:.6}, {self.err.imag:.6}),\\n'", "C19.2"),
